@@ -164,10 +164,10 @@ class C14(Prop):
                   'RelationBuilder::build, the way back through cone C10\'s accessor model, Entry and field level): the lossless form prints '
                   'exactly the lossy text for EVERY lossy value, without panic (C14_conv_text); converting back returns the value for every '
                   'valid value (C14_conv_back); the lossless reader (Relation/Entry/Relations::from_str, parse_relaxed) reads the printed text '
-                  'as the same structure for the valid values whose printed form is in the Policy grammar of cone C10 (C14_conv_read, '
-                  'C14_conv_partial). PARTIAL: that last clause is not proved for an empty architecture list "[]", an empty profile group '
-                  '"<>" and versions with an empty colon-separated piece ("7:1::2") - C14_conv_full stays a Definition; those are decided by '
-                  'the rel-lossy-conv stream (model and implementation agree, the oracle holds).')
+                  'as the same structure for EVERY valid value, also an empty architecture list "[]", an empty profile group "<>" and versions '
+                  'with an empty colon part such as "7:1::2" (C14_conv_read, through cone C10\'s image theorem for liberal layouts: the printed '
+                  'field is exhibited as a lexable liberal layout whose tokens are the lexer\'s output); the three clauses together are the '
+                  'theorem C14_conv_full_holds. Nothing in C14 is partial.')
     level_note = ('Model: coq/model/RelLossy.v (reader over RelLex tokens, Display impls, str::split/trim, debversion 0.4.4 parse/print as a '
                   'modelled external). The model is of the PATCHED code; against an unpatched /repo the check reports the defects.')
     rule = ("rel-lossy: hand-picked corners + every combination of {qualifier, 4 version shapes, 6 architecture lists, 8 profile-group shapes} "
